@@ -501,6 +501,10 @@ def poly_fails(desc, algo, costs):
             st, err, lines, raw = run_cli(desc, algo, policy, costs)
         except Exception as e:
             return [f"{policy}: exception {type(e).__name__}: {e}"]
+        if not has_solution(case, algo):
+            if raw != "":
+                fails.append(f"{policy}: output written although no gene order is compatible with all leaves")
+            continue
         if st not in (None, 0) or not lines:
             fails.append(f"{policy}: exit status {st}, {len(lines)} line(s)")
             continue
